@@ -58,9 +58,14 @@ func runSolver(ctx context.Context, sp solverSpec, timeout time.Duration, file s
 	cmd.Stderr = &out
 	_ = cmd.Run()
 	s := out.String()
-	first := strings.TrimSpace(s)
-	if i := strings.IndexByte(first, '\n'); i >= 0 {
-		first = strings.TrimSpace(first[:i])
+	first := ""
+	for _, ln := range strings.Split(s, "\n") {
+		ln = strings.TrimSpace(ln)
+		if ln == "" || strings.HasPrefix(ln, "WARNING") {
+			continue
+		}
+		first = ln
+		break
 	}
 	switch first {
 	case "sat", "unsat", "unknown":
